@@ -51,10 +51,10 @@ def run(chk):
     for q, f in src.funcs.items():
         if not q.startswith(CLI):
             continue
-        for n in ast.walk(f.node):
-            if isinstance(n, ast.Return) and isinstance(n.value, ast.Call) and ast.unparse(n.value.func) == "click.option":
-                names = [a.value for a in n.value.args if isinstance(a, ast.Constant) and str(a.value).startswith("--")]
-                helpers[q] = (names[0][2:].replace("-", "_") if names else None, _click_path_kwargs(n.value))
+        for v in E.return_exprs(f.node):
+            if isinstance(v, ast.Call) and ast.unparse(v.func) == "click.option":
+                names = [a.value for a in v.args if isinstance(a, ast.Constant) and str(a.value).startswith("--")]
+                helpers[q] = (names[0][2:].replace("-", "_") if names else None, _click_path_kwargs(v))
     n_cmd = 0
     n_dir = [0]
     for q, f in src.funcs.items():
@@ -107,22 +107,35 @@ def run(chk):
     fex = src.func(f"{CLI}.runcards.sub_example")
     chk.need(any(h[0] == "destination" for h in helpers.values()), "the destination option helper vanished")
     # ---- (2) example writes normalised cards into the destination ---------------------------------------------------------------
-    dumps = [c for c in src.calls_in(fex) if ast.unparse(c.func) == "cards.dump"]
-    ok = len(dumps) == 2
-    seen = set()
-    for c in dumps:
-        payload = ast.unparse(c.args[0]) if c.args else ""
-        path = next((ast.unparse(k.value) for k in c.keywords if k.arg == "path"), ast.unparse(c.args[1]) if len(c.args) > 1 else "")
-        ok = ok and payload.endswith(".raw") and path.startswith("destination /")
-        seen.add(payload.split(".")[0])
-    order = [("mkdir" if "destination.mkdir(" in stmt_text(st) else "dump" if "cards.dump(" in stmt_text(st) else "") for st in fex.node.body]
-    order = [o for o in order if o]
-    chk.decide(ok and seen == {"theory", "operator"} and order[:1] == ["mkdir"], "example-writes-normalised-cards", fex.qname,
-               f"the example command must create the destination and dump theory.raw and operator.raw into it (found payloads {sorted(seen)}, "
-               f"order {order})", where=fex.where)
-    fdump = src.func("ekobox.cards.dump")
-    chk.decide("yaml.safe_dump(card, fd)" in stmt_text(fdump.node), "example-writes-normalised-cards", fdump.qname, "cards.dump no longer uses "
-               "the safe dumper", where=fdump.where, instance="dump")
+    # evaluated on the model file system with the example cards replaced by marked objects: the command must create the destination
+    # (absent, present, nested) and write the NORMALISED form (.raw) of the example theory and operator card into it, as plain YAML
+    from .. import fsmodel
+
+    for label, dest, pre in (("absent", "/cwd/runcards", []), ("present", "/cwd/runcards", ["/cwd/runcards"]), ("nested", "/cwd/a/b", [])):
+        fs_ = fsmodel.FS()
+        pe_x = PE(src)
+        fsmodel.install(pe_x, fs_)
+        fs_.path("/cwd").mkdir()
+        for d in pre:
+            fs_.path(d).mkdir(parents=True)
+
+        class Card(Opaque):
+            def __init__(self, kind):
+                self.kind = kind
+                self.raw = {"card": kind, "normalised": True}
+
+        pe_x.overrides["ekobox.cards.example.theory"] = lambda p_, a, k: Card("theory")
+        pe_x.overrides["ekobox.cards.example.operator"] = lambda p_, a, k: Card("operator")
+        try:
+            pe_x.call(fex.qname, [fs_.path(dest)])
+            written = {p_: c for p_, c in fs_.files.items() if p_.startswith(dest + "/")}
+            kinds = sorted(c[1].get("card") for c in written.values() if isinstance(c, tuple) and c[0] == "yaml" and isinstance(c[1], dict) and c[1].get("normalised"))
+            ok, msg = kinds == ["operator", "theory"] and len(written) == 2, f"files {sorted(written)} holding {kinds}"
+        except PERaise as e:
+            ok, msg = False, f"raises {e}"
+        chk.decide(ok, "example-writes-normalised-cards", fex.qname, f"destination {label}: {msg}; required: the destination created if needed and "
+                   f"exactly the normalised theory and operator cards written into it as plain YAML", where=fex.where, instance=label,
+                   how="PE on a model file system")
     # ---- (3) argument forms of `run` ------------------------------------------------------------------------------------------------
     frun = src.func(f"{CLI}.run.subcommand")
     pe = PE(src)
